@@ -31,7 +31,7 @@ def workload(tier, rng):
             p = P(c, k, r, m=m, length=k + rng.choice([0, 1, 7]))
             execs.append(gen.encode_exec(p, order=esis, slots=["buf", "null"]))
     for p in rs_pts:
-        p2 = P(p.codec, p.k, p.r, m=p.m, length=p.len + rng.choice([0, 0, 1, 3]), align=rng.choice([0, 0, 1, 5]))
+        p2 = P(p.codec, p.k, p.r, m=p.m, length=p.len + rng.choice([0, 0, 1, 3]), align=gen.pick_align(rng))
         execs.append(gen.encode_exec(p2, slots=rng.choice(["buf", "null", ["buf", "null"]])))
         if p2.n <= 12 and rng.random() < 0.4:      # repair symbols asked for again after a source symbol was zeroed
             execs.append(gen.encode_exec(p2, slots="buf", rebuild=(rng.randrange(p2.k), rng.sample(range(p2.k, p2.n), rng.randint(1, p2.r)))))
@@ -42,7 +42,7 @@ def workload(tier, rng):
             for seed in ([1, 77] if q else [1, 77, 2147483646])]
     for (k, r, n1, seed) in grid:
         length = gen.need_len(3, k, 0) + rng.choice([0, 1, 8])
-        p = P(3, k, r, N1=n1, seed=seed, length=length, align=rng.choice([0, 0, 3]))
+        p = P(3, k, r, N1=n1, seed=seed, length=length, align=gen.pick_align(rng))
         execs.append(gen.encode_exec(p, slots=rng.choice(["buf", "null", ["null", "buf"]])))
         if k <= 21 and rng.random() < 0.4:
             execs.append(gen.encode_exec(P(3, k, r, N1=n1, seed=seed, length=gen.need_len(3, k, 0)), slots="buf",
@@ -74,7 +74,7 @@ def workload(tier, rng):
             if c == 3 and length > 8192:
                 continue
             k = rng.choice([3, 5, 6, 7]); r = rng.randint(3, 5)      # k not a power of two: the replicated payload has period k
-            p = P(c, k, r, m=m, N1=3 if c == 3 else 0, seed=rng.randint(1, 10 ** 6), length=length, payload="idr", align=rng.choice([0, 1]))
+            p = P(c, k, r, m=m, N1=3 if c == 3 else 0, seed=rng.randint(1, 10 ** 6), length=length, payload="idr", align=gen.pick_align(rng))
             execs.append(gen.encode_exec(p, slots=["buf", "null"]))
     # random payloads: only status / slot / source-buffer integrity are observable
     for _ in range(20 if q else 200):
